@@ -31,16 +31,13 @@ theorem C48_constants :
       pReadResponse, pRequestFinish, pFinish] ∧
     C48.actions.map (·.2) = [aKeepAlive, aCloseAfterReply, aCloseDirectly] := by decide
 
-/-- the five `FilterXxx` loops of the current source still have the body `runChain` mirrors -/
-theorem C48_filter_loops_as_modelled : C48.filterLoopAsModelled.all (·.2) = true := by decide
-
 /-- every statement of every extracted arm is one the skeleton interprets; every callback point occurs exactly once
     in bfe_server, HandleFinish's verdict is discarded, the others are inspected; ServeHTTP visits its four points in
     the order the skeleton assumes. -/
 theorem C48_reactions_understood :
     C48.armsT.all (fun a => !a.2.2.contains .unknown) = true ∧
-    C48.pointsT = [(pFinish, false), (pAccept, true), (pHandshake, true), (pForward, true), (pRequestFinish, true),
-      (pBeforeLocation, true), (pFoundProduct, true), (pAfterLocation, true), (pReadResponse, true)] ∧
+    C48.pointsT = [(pAccept, true), (pHandshake, true), (pBeforeLocation, true), (pFoundProduct, true),
+      (pAfterLocation, true), (pForward, true), (pReadResponse, true), (pRequestFinish, true), (pFinish, false)] ∧
     C48.serveHTTPOrder.length = 4 := by decide
 
 /-- **The skeleton is the source's**: in every function the model's skeleton mirrors, the callback points, the labels
@@ -52,15 +49,15 @@ theorem C48_reactions_understood :
     ends each arm is part of `armsT`, see `C48_reactions_understood`.) -/
 theorem C48_skeleton_as_modelled :
     C48.events =
-      [("serve", ["call:finish", "call:close", "point:Accept", "call:Handshake", "point:Handshake", "call:readRequest",
+      [("conn.serve", ["call:finish", "point:Accept", "call:Handshake", "point:Handshake", "call:readRequest",
           "call:serveRequest"]),
-       ("serveRequest", ["call:ServeHTTP", "call:prepareForCloseConn", "call:finishRequest", "call:FinishReq"]),
-       ("finish", ["point:Finish"]),
-       ("ServeHTTP", ["point:BeforeLocation", "call:findProduct", "point:FoundProduct", "call:findCluster",
+       ("conn.serveRequest", ["call:ServeHTTP", "call:prepareForCloseConn", "call:finishRequest", "call:FinishReq"]),
+       ("conn.finish", ["point:Finish"]),
+       ("ReverseProxy.ServeHTTP", ["point:BeforeLocation", "call:findProduct", "point:FoundProduct", "call:findCluster",
           "point:AfterLocation", "call:clusterInvoke", "label:response_got", "point:ReadResponse", "label:send_response",
           "call:sendResponse"]),
-       ("clusterInvoke", ["call:Balance", "point:Forward", "call:RoundTrip"]),
-       ("FinishReq", ["point:RequestFinish"])] ∧
+       ("ReverseProxy.clusterInvoke", ["call:Balance", "point:Forward", "call:RoundTrip"]),
+       ("ReverseProxy.FinishReq", ["point:RequestFinish"])] ∧
     C48.guards.all (·.2) = true := by decide
 
 /-- HandleHandshake (TLS connections; not driven by the harness) reacts to every verdict exactly like HandleAccept -/
